@@ -6,6 +6,7 @@ import (
 
 	"verif/harness/evid"
 	"verif/harness/tok"
+	"verif/harness/wproto"
 )
 
 func init() { register("C03", "model_checking", checkC03) }
@@ -42,6 +43,43 @@ func checkC03(r *evid.Run) {
 	} else {
 		traceAPIHistories(r, 40, 40)
 	}
+	massiveSentinels(r)
 	r.Set("exhaustive", true)
 	r.Set("rule", "every order of NewRoot/Add calls (repeated Adds of existing names anywhere, several trees) of at most MaxCalls-1 calls followed by one operation of each kind (text with branch tuples, JSON/YAML/TOML, walk callback/iterator, each through the current function or its deprecated alias) on any node incl. nil and non-roots; result compared with the specification and with the real From-Markdown call on the canonical spelling; non-trivial = at least 3 calls")
+}
+
+// massiveSentinels: nil and non-root arguments in massive mode, every operation (worker process: the
+// pipeline must not even start)
+func massiveSentinels(r *evid.Run) {
+	pool := workerPool(r, 4)
+	if pool == nil {
+		return
+	}
+	defer pool.Close()
+	items := []wproto.Item{{D: 1, N: "r"}, {D: 2, N: "a"}, {D: 3, N: "b"}, {D: 2, N: "c"}}
+	for _, idx := range []int{-1, 1, 2, 3} {
+		for _, op := range []wproto.Req{{Op: "output"}, {Op: "output", Format: "json"}, {Op: "output", Format: "yaml"}, {Op: "walk"}, {Op: "mkdir"}, {Op: "mkdir", DryRun: true}, {Op: "verify"}} {
+			for _, massive := range []bool{false, true} {
+				for _, alias := range []bool{false, true} {
+					rq := op
+					rq.Route, rq.Items, rq.NodeIdx, rq.Massive, rq.Alias = "root", items, idx, massive, alias
+					rp := pool.Call(rq, 30*time.Second)
+					r.Count("real_calls", 1)
+					want := "not root node"
+					if idx < 0 {
+						want = "nil node"
+					}
+					created := 0
+					for _, e := range rp.Entries {
+						if e != "d:t" {
+							created++
+						}
+					}
+					if rp.Class != "err" || rp.Err != want || rp.Out != "" || len(rp.Walk) != 0 || created != 0 {
+						r.Mismatch(fmt.Sprintf("api-sentinel:%s/massive=%v", rq.Op, massive), fmt.Sprintf("%s(format=%q dry=%v alias=%v massive=%v) on node #%d of r{a{b} c}: want %q and nothing written, got class=%s err=%q out=%q", rq.Op, rq.Format, rq.DryRun, alias, massive, idx, want, rp.Class, rp.Err, rp.Out), rq)
+					}
+				}
+			}
+		}
+	}
 }
